@@ -278,12 +278,20 @@ func runC20(c *Ctx) {
 	nGen := 0
 	genFns := map[*ssa.Function]bool{}
 	for _, fn := range c.RepoFuncs("terminal") {
-		if fn.Name() != "CreateDefaultCommandData" && fn.Name() != "CreateCommandData" {
+		// frame generators, by role: functions that encode a frame with the simulator's own header (receiver.header)
+		encs := headerEncodeCalls(fn)
+		isGen := false
+		for _, e := range encs {
+			hr, hp := loadPath(e.Call.Args[0])
+			if _, isP := hr.(*ssa.Parameter); isP && samePath(hp, []string{"header"}) {
+				isGen = true
+			}
+		}
+		if !isGen {
 			continue
 		}
 		nGen++
 		genFns[fn] = true
-		encs := headerEncodeCalls(fn)
 		ok, d := len(encs) == 1, fmt.Sprintf("%d Encode calls", len(encs))
 		if ok {
 			enc := encs[0]
@@ -351,8 +359,39 @@ func runC20(c *Ctx) {
 		}
 		R.Add("S.serial-progression", shortFn(fn), c.P.RelPos(fn.Pos()), s, d)
 	}
-	if nGen < 2 {
-		R.Fatal("only %d frame generators found in terminal (anchor)", nGen)
+	if nGen < 1 {
+		R.Fatal("no function of the simulator encodes a frame with its own header (anchor)")
+	}
+	// the public generators reach such a function
+	for _, name := range []string{"CreateDefaultCommandData", "CreateCommandData"} {
+		fn := c.P.Method("terminal", "Terminal", name)
+		okR := false
+		if fn != nil {
+			seen := map[*ssa.Function]bool{}
+			var walk func(f *ssa.Function, depth int)
+			walk = func(f *ssa.Function, depth int) {
+				if f == nil || seen[f] || depth > 3 {
+					return
+				}
+				seen[f] = true
+				if genFns[f] {
+					okR = true
+				}
+				for _, b := range f.Blocks {
+					for _, ins := range b.Instrs {
+						if call, isC := ins.(*ssa.Call); isC {
+							walk(call.Call.StaticCallee(), depth+1)
+						}
+					}
+				}
+			}
+			walk(fn, 0)
+		}
+		st := report.Discharged
+		if !okR {
+			st = report.Violated
+		}
+		R.Add("S.serial-progression", "Terminal."+name+" / generates its frame through a serial-incrementing encoder", "", st, "the public generator does not reach a function that increments the serial and encodes with the simulator's header")
 	}
 	// no other writer of the simulator header's serial: stores to PlatformSerialNumber through t.header in terminal
 	{
@@ -614,7 +653,7 @@ func runC20(c *Ctx) {
 	c.AddE1(res, false)
 	R.Require("S.registry-agreement", 8, "")
 	R.Require("S.expected-reply", 9, "")
-	R.Require("S.serial-progression", 3, "")
+	R.Require("S.serial-progression", 4, "")
 	R.Require("E6.template", 3, "")
 	R.Explain = "Acceptance of every generated frame for every phone, and byte equality with a live server, are value-level and not decided. Decided: the simulator and the server register the same model types for all reply-bearing IDs they share; ExpectedReply and the server's reply function have the same construction (header of the decoded request, ReplyProtocol, serial, ReplyBody of the same message); the generators increment the serial once by one before the single Encode and nothing else writes it; the template frame's checksum covers the framed bytes and is escaped with the codec's table on every path (abstract interpretation of the closure); panic-freedom obligations of the simulator's functions."
 }
